@@ -5,7 +5,7 @@ FUNCS = ['elementraw::ElementRaw::set_item_name', 'elementraw::ElementRaw::item_
          'elementraw::ElementRaw::set_character_data_internal', 'chardata::CharacterData::check_value', 'autosarmodel::AutosarModel::get_element_by_path', 'autosarmodel::AutosarModel::fix_identifiables',
          'elementraw::ElementRaw::remove_sub_element', 'elementraw::ElementRaw::remove_internal', 'autosarmodel::AutosarModel::remove_identifiable', 'autosarmodel::AutosarModel::remove_reference_origin',
          'element::WeakElement::upgrade', 'element::Element::parent']
-MODEL = 'model AUTOSAR > AR-PACKAGES > [P1 (name n1) > AR-PACKAGES > Q (name q), P2 (name n2) > two reference elements]; n1 of {l1} bytes, n2 of {l1}+1 bytes (so that n2 may extend n1), q of 1 byte, the reference texts ANY valid reference of the lengths of /n1 and /n1/q (they may designate P1, Q, a path that only shares the prefix, or nothing); names ANY identifier; path index (IndexMap) and referrer lists (HashMap) are association lists with symbolic keys in the executor and start consistent with the tree'
+MODEL = 'model AUTOSAR > AR-PACKAGES > [P1 (name n1) > AR-PACKAGES > [Q (name q), Q2 (name q2)], P2 (name n2) > four reference elements]; n1 of {l1} bytes, n2 of {l1}+1 bytes (so that n2 may extend n1), q of 1 byte, the four reference texts ANY valid references of the lengths of /n1, /n1/q, /n2 and of the FUTURE path /m (they may designate P1, Q, Q2, a path that only shares the prefix, the future path, or nothing); names ANY identifier; path index (IndexMap) and referrer lists (HashMap) are association lists with symbolic keys in the executor and start consistent with the tree'
 
 
 def build(tier, known):
@@ -17,9 +17,9 @@ def build(tier, known):
         hs.append(E2Spec(f'e2_c04_rename_{l1}_{lm}', 'RenameStep', dict(l1=l1, lm=lm, aspect='c04'), functions=FUNCS,
                          bound=MODEL.format(l1=l1) + f'; one call P1.set_item_name(m) with m ANY identifier of {lm} bytes (m == n2 possible when the lengths agree)',
                          claim="the identifiable elements that are part of the model afterwards are found under their current paths, the index has exactly these entries, a rename to a sibling's name is rejected and a rejected rename changes nothing; a removed element is unlinked (no parent, no content, not listed)", native=('data', 'n_rename_step'), timeout=900))
-    for which in ('p1', 'p2'):
+    for which in ('p1', 'p2', 'ref'):
         hs.append(E2Spec(f'e2_c04_remove_{which}', 'RemoveStep', dict(l1=1, which=which, aspect='c04'), functions=FUNCS,
-                         bound=MODEL.format(l1=1) + f'; one call AR-PACKAGES.remove_sub_element({which.upper()})',
+                         bound=MODEL.format(l1=1) + f'; one call remove_sub_element of {dict(p1="P1 (with the nested Q and Q2)", p2="P2 (with the references)", ref="the first reference element itself (a leaf)")[which]}',
                          claim="the identifiable elements that are part of the model afterwards are found under their current paths, the index has exactly these entries, a rename to a sibling's name is rejected and a rejected rename changes nothing; a removed element is unlinked (no parent, no content, not listed)", native=('data', 'n_remove_step'), timeout=900))
     info = dict(
         assumptions=['E2 library models (mirsym/models.py) are trusted and validated against the native build',
